@@ -20,6 +20,16 @@ def main():
     from crosshair.core import analyze_function, run_checkables
     from crosshair.options import AnalysisOptionSet
 
+    from crosshair import statespace
+
+    decisions = [0]
+    _orig_choose = statespace.StateSpace.choose_possible
+
+    def _counting_choose(self, *a, **kw):
+        decisions[0] += 1
+        return _orig_choose(self, *a, **kw)
+
+    statespace.StateSpace.choose_possible = _counting_choose
     mod = importlib.import_module(modname)
     fn = getattr(mod, fname)
     stats = collections.Counter()
@@ -50,6 +60,7 @@ def main():
                 "harness": fname,
                 "messages": out,
                 "num_paths": stats.get("num_paths", 0),
+                "decisions": decisions[0],
                 "stats": {k: v for k, v in stats.items() if isinstance(v, (int, float))},
                 "cpu_s": round(time.process_time(), 2),
                 "wall_s": round(time.time() - t0, 2),
